@@ -292,7 +292,11 @@ Definition end_offset (len base offset : N) : option N :=
 Inductive xop :=
 | XWrite (off len : N)                 (* Bytes::write(buf[len], off) on the GuestRegionMmap *)
 | XRead (off len : N)                  (* Bytes::read *)
-| XSliceGuard (off len : N) (w : bool) (* get_slice(off,len)?.ptr_guard() / ptr_guard_mut(), dropped at once *)
+| XSliceGuard (off len : N) (w : bool) (* get_slice(off,len)?.ptr_guard() / ptr_guard_mut(), dropped at once.  Also every
+                                          DERIVED slice over the same bytes: subslice / offset / split_at / VolatileRef::to_slice /
+                                          VolatileArrayRef::to_slice / ref_at pass `mmap` along unchanged (volatile_memory.rs:
+                                          offset, subslice, get_ref, get_array_ref, to_slice, ref_at), so the guard is the same;
+                                          the harness reaches the slice by seven routes (wire field c), the model has one *)
 | XRefStore (off tsize : N)            (* get_ref::<T>(off)?.store(v) *)
 | XRefLoad (off tsize : N)
 | XArrStore (off tsize n i : N)        (* get_array_ref::<T>(off,n)?.store(i,v) *)
